@@ -299,6 +299,20 @@ def run(ctx, case):
                 which.beats(qs, sn)
             except Exception:
                 pass
+    if snaps:
+        # one argument at a time: the same positions, bpms and metronomes from another initial offset
+        initial2 = float(initial) + (1234.5 if case.get("rows_seed", 0) % 3 else -777.25)
+        try:
+            tw0 = TimingMap.from_bpm_changes_snap(initial2, [BpmChangeSnap(float(v), int(t), Snap(m, b, int(t))) for m, b, v, t in changes], reseat=False)
+        except Exception:
+            tw0 = None
+        if tw0 is not None:
+            tw0._rv_truth = rt.RefTiming(F(initial2), changes)
+            ctx.state("c10.offset_twin", initial2 > float(initial))
+            try:
+                tw0.offsets(snaps)
+            except Exception:
+                pass
     mets = {c[3] for c in changes}
     if len(mets) == 1:
         # one argument at a time: the same tempo points (same ms, same bpm) under another metronome, same snapper,
